@@ -62,7 +62,9 @@ func runMutants(pc *PropCheck, base *Prog, r *Report) {
 					panic(x)
 				}
 			}()
+			activeProg = prog
 			pc.Run(prog, sub)
+			activeProg = base
 		}()
 		known := loadKnown()
 		var fired []string
